@@ -3,6 +3,8 @@
 Cases are of two shapes:
   * `backoff kind=… initial_ns=… mult_num=… mult_den=… cap_ns=…|none rf_pct=…` + `probe backoff attempt=<a>` lines:
     the real interval function / ReconnectPolicy is called directly with that attempt number;
+    with `chain=<s1,…>` (`m<p>:<q>` = `.multiplier(p/q)`, `c<ns>` = `.max_interval(ns)`) the builder setters are applied in exactly
+    that order, any permutation / repetition; the intended configuration is "the last value of each setting" (`parse_chain`);
   * `reconnect policy=default` (end to end): a default ReconnectLayer against an inner service that fails for
     hours of virtual time; the request must keep retrying every 5 s and never panic.
 """
@@ -14,8 +16,11 @@ USIZE_MAX = 2 ** 64 - 1
 DUR_MAX = (2 ** 64 - 1) * 10 ** 9 + 999999999
 SEC = 10 ** 9
 GRID = [(1, 1), (11, 10), (5, 4), (3, 2), (2, 1), (5, 2), (3, 1), (7, 2), (5, 1), (15, 2), (10, 1)]
-JITTER_KINDS = ("rand", "policy_rand")
-POLICY2 = ("policy_exp", "policy_rand")
+JITTER_KINDS = ("rand", "policy_rand", "retry_policy_rand", "policy_rand_of")
+POLICY2 = ("policy_exp", "policy_rand")            # two-argument constructors: x2, cap given, no chain
+EXP_FAMILY = ("exp", "retry_policy", "policy_exp_of", "policy_custom")       # an ExponentialBackoff built by a chain
+RAND_FAMILY = ("rand", "retry_policy_rand", "policy_rand_of")                # an ExponentialRandomBackoff built by a chain
+BELOW2 = [(1, 1), (11, 10), (5, 4), (3, 2)]
 
 
 # ----------------------------------------------------------------------------- exact oracle (python ints)
@@ -25,6 +30,7 @@ class Ideal:
     def __init__(self, initial, num, den, cap):
         self.cap = DUR_MAX if cap is None else cap
         self.const = None
+        self.rawcross = None
         if initial == 0 or num == den:
             self.const = min(initial, self.cap)
             self.cross = 0 if initial >= self.cap else None
@@ -35,6 +41,7 @@ class Ideal:
             v = n // d
             if v >= self.cap:
                 self.table.append(self.cap)
+                self.rawcross = v
                 break
             self.table.append(v)
             n *= num
@@ -48,16 +55,44 @@ class Ideal:
         return self.table[min(e, len(self.table) - 1)]
 
 
+def parse_chain(s):
+    """[('m', (p, q)) | ('c', ns)] in the order of the calls; unknown items are skipped (as the harness does)"""
+    items = []
+    for w in s.split(","):
+        try:
+            if w.startswith("m"):
+                p, q = w[1:].split(":")
+                items.append(("m", (int(p), int(q))))
+            elif w.startswith("c"):
+                items.append(("c", int(w[1:])))
+        except ValueError:
+            pass
+    return items
+
+
+def last_wins(items):
+    """what the builder's documentation promises: each setter overwrites its own setting; defaults x2, no maximum"""
+    mult, cap = (2, 1), None
+    for k, v in items:
+        if k == "m":
+            mult = v
+        else:
+            cap = v
+    return mult[0], mult[1], cap
+
+
 def eff(header_kv, op):
     kv = dict(header_kv)
     kv.update(kvs(op))
     kind = kv.get("kind", "exp")
     initial = int(kv.get("initial_ns", "0"))
     num, den = int(kv.get("mult_num", "2")), int(kv.get("mult_den", "1"))
-    if kind in POLICY2:
-        num, den = 2, 1
     cap = kv.get("cap_ns", "none")
     cap = None if cap == "none" else int(cap)
+    if kind in POLICY2:
+        num, den = 2, 1
+    elif "chain" in kv:
+        num, den, cap = last_wins(parse_chain(kv["chain"]))
     rf = int(kv.get("rf_pct", "50"))
     return kind, initial, num, den, cap, rf, int(kv.get("attempt", "0"))
 
@@ -90,28 +125,117 @@ def _initial(rng):
     return int(10 ** rng.uniform(0, 15))
 
 
+def _raw(initial, num, den, k):
+    return initial * num ** k // den ** k
+
+
+def _other_cap(rng, initial, cap):
+    """a maximum that is set and then overridden"""
+    base = cap if cap else max(initial, 1)
+    return min(DUR_MAX, rng.choice([base // 2, base * 2, base + 1, max(base - 1, 0), initial, initial * rng.choice([3, 10, 50, 1000]),
+                                    5 * SEC, 3600 * SEC, DUR_MAX]))
+
+
+def _chain(rng, initial, num, den, cap):
+    """a builder chain whose last multiplier is num/den and whose last maximum is cap (no `c` item at all if cap is None):
+    both orders, default multiplier left out, overridden and repeated setters anywhere"""
+    m, c = ("m", (num, den)), ("c", cap)
+    r = rng.random()
+    if cap is None:
+        if (num, den) == (2, 1) and r < 0.5:
+            return []
+        items = [m]
+        if r > 0.6:
+            items = [("m", rng.choice(GRID)) for _ in range(rng.randint(1, 2))] + items
+        return items
+    if (num, den) == (2, 1) and r < 0.4:
+        return [c] if r < 0.25 else [("c", _other_cap(rng, initial, cap)), c]
+    if r < 0.35:
+        return [c, m]
+    if r < 0.55:
+        return [m, c]
+    # 1..3 overridden setters, interleaved anywhere; the last of each setting is the intended one
+    extra = []
+    for _ in range(rng.randint(1, 3)):
+        if rng.random() < 0.6:
+            extra.append(("m", rng.choice(GRID + [(2, 1), (2, 1), (10, 1), (num, den)])))
+        else:
+            extra.append(("c", _other_cap(rng, initial, cap)))
+    items = extra + [m, c]
+    rng.shuffle(items)
+    for fin in (m, c):
+        last = max(i for i, it in enumerate(items) if it[0] == fin[0])
+        j = items.index(fin)
+        items[j], items[last] = items[last], items[j]
+    return items
+
+
+def chain_word(items):
+    return "chain=" + (",".join("m%d:%d" % v if k == "m" else "c%d" % v for k, v in items) or "-")
+
+
+def _settings(items):
+    """every multiplier / maximum that is in force at some point of the chain (defaults included)"""
+    mults, caps = [(2, 1)], [None]
+    for k, v in items:
+        (mults if k == "m" else caps).append(v)
+    return mults, caps
+
+
+def _saturation_points(initial, items, num, den, cap, limit=20000):
+    """first capped attempt of the intended configuration and of every stale combination of settings seen along the chain"""
+    mults, caps = _settings(items)
+    pts = []
+    for mm in dict.fromkeys(mults[-3:] + [(num, den)]):
+        for cc in dict.fromkeys(caps[-3:] + [cap]):
+            x = Ideal(initial, mm[0], mm[1], cc).cross
+            if x is not None and x <= limit:
+                pts.append(x)
+    return sorted(set(pts))
+
+
 def gen(rng, tier):
     if rng.random() < (1 / 150.0):
         return _outage_case(rng, tier)
-    kind = rng.choice(["exp"] * 6 + ["rand"] * 2 + ["retry_policy", "policy_exp", "policy_exp", "policy_rand", "policy_fixed", "fixed", "policy_none"])
+    kind = rng.choice(["exp"] * 6 + ["rand"] * 2 + ["retry_policy", "policy_exp", "policy_exp", "policy_rand", "policy_fixed", "fixed", "policy_none",
+                                                    "retry_policy", "policy_exp_of", "policy_exp_of", "policy_rand_of", "retry_policy_rand", "policy_custom"])
+    chainable = kind in EXP_FAMILY + RAND_FAMILY
+    use_chain = chainable and rng.random() < 0.6
     initial = _initial(rng)
-    num, den = rng.choice(GRID)
+    num, den = rng.choice(BELOW2 + [(2, 1)]) if use_chain and rng.random() < 0.5 else rng.choice(GRID)
+    n2, d2 = (2, 1) if kind in POLICY2 else (num, den)
     r = rng.random()
     if r < 0.2 and kind not in POLICY2:
         cap = None
-    elif r < 0.4:
+    elif r < 0.35:
         cap = rng.choice([initial // 2, max(initial - 1, 0), initial, initial + 1])           # at / below the initial interval
+    elif r < 0.55 and initial:
+        # close to an uncapped value: of the configured multiplier or of another one (x2 is what a fresh builder has)
+        pq = rng.choice([(n2, d2), (n2, d2), (2, 1), rng.choice(GRID)])
+        cap = max(0, _raw(initial, pq[0], pq[1], rng.randint(1, 40)) + rng.choice([-1, 0, 0, 1]))
     elif r < 0.8:
-        cap = initial * rng.choice([3, 10, 50, 1000]) + rng.choice([0, 1, 7]) if initial else rng.choice([0, 5 * SEC])
+        cap = initial * rng.choice([3, 10, 50, 100, 1000]) + rng.choice([0, 1, 7]) if initial else rng.choice([0, 5 * SEC])
     else:
         cap = rng.choice([5 * SEC, 3600 * SEC, 365 * 86400 * SEC, 10 * 365 * 86400 * SEC, DUR_MAX])
+    if rng.random() < 0.05:
+        # the product lands EXACTLY on 2^64 s (the f64 image of Duration::MAX, which `from_secs_f64` rejects): a power of two in
+        # seconds times a power-of-two multiplier, no maximum (or one at the top of the range)
+        initial = rng.choice([SEC << rng.randint(0, 12), SEC >> rng.randint(1, 9)])
+        num, den = n2, d2 = (2, 1) if kind in POLICY2 else rng.choice([(2, 1), (2, 1), (4, 1), (8, 1)])
+        cap = rng.choice([DUR_MAX, DUR_MAX - 999999999] + ([] if kind in POLICY2 else [None, None]))
     cap = None if cap is None else min(cap, DUR_MAX)
-    rf = rng.choice([0, 1, 25, 50, 50, 100, rng.randint(0, 100)])
-    words = ["backoff", "kind=" + kind, "initial_ns=%d" % initial, "mult_num=%d" % num, "mult_den=%d" % den,
-             "cap_ns=" + ("none" if cap is None else str(cap))]
+    rf = rng.choice([0, 1, 25, 50, 50, 100, rng.randint(0, 100)] + ([0, 0, 10] if use_chain else []))
+    words = ["backoff", "kind=" + kind, "initial_ns=%d" % initial]
+    items = []
+    if use_chain:
+        items = _chain(rng, initial, num, den, cap)
+        words.append(chain_word(items))
+    else:
+        words += ["mult_num=%d" % num, "mult_den=%d" % den, "cap_ns=" + ("none" if cap is None else str(cap))]
     if kind in JITTER_KINDS:
         words.append("rf_pct=%d" % rf)
-    n2, d2 = (2, 1) if kind in POLICY2 else (num, den)
+    if rng.random() < 0.1:
+        words.append("clone=1")
     idl = Ideal(initial, n2, d2, cap)
     attempts = []
     full = rng.random() < (0.02 if tier == "quick" else 0.05)
@@ -125,6 +249,13 @@ def gen(rng, tier):
         starts.append(rng.randint(0, 10000 - L))
         for s in rng.sample(starts, min(len(starts), 2)):
             attempts += list(range(s, s + rng.randint(8, L)))
+        # around the first capped attempt of the intended configuration and of every stale one, and in between
+        pts = _saturation_points(initial, items, n2, d2, cap) if kind not in ("fixed", "policy_fixed", "policy_none") else []
+        for x in pts:
+            attempts += list(range(max(0, x - 2), x + 3))
+        if len(pts) >= 2:
+            lo, hi = pts[0], pts[-1]
+            attempts += list(range(lo, hi + 1)) if hi - lo <= 40 else [rng.randint(lo, hi) for _ in range(20)]
     sparse = [67, 68, 69, 1023, 1024, 10000, I32_MAX - 1, I32_MAX, I32_MAX + 1, 2 ** 32 - 1, 2 ** 32, 2 ** 63, USIZE_MAX - 1, USIZE_MAX]
     for _ in range(6):
         k = rng.randint(4, 64)
@@ -135,8 +266,14 @@ def gen(rng, tier):
     ops = ["probe backoff attempt=%d" % a for a in attempts]
     if rng.random() < 0.15:
         # the same function reached through another type, keys given on the operation
-        alt = rng.choice(["retry_policy", "exp"]) if kind not in POLICY2 + JITTER_KINDS + ("policy_none", "policy_fixed", "fixed") else kind
+        fam = EXP_FAMILY if kind in EXP_FAMILY else RAND_FAMILY if kind in RAND_FAMILY else (kind,)
+        alt = rng.choice(fam)
         ops += ["probe backoff kind=%s attempt=%d" % (alt, a) for a in rng.sample(attempts, min(10, len(attempts)))]
+    if use_chain and rng.random() < 0.3:
+        # the same settings through other chains (other order, other overridden setters), chain given on the operation
+        for _ in range(rng.randint(1, 2)):
+            other = chain_word(_chain(rng, initial, num, den, cap))
+            ops += ["probe backoff %s attempt=%d" % (other, a) for a in rng.sample(attempts, min(10, len(attempts)))]
     return {"header": " ".join(words), "ops": ops}
 
 
@@ -266,7 +403,11 @@ def transitions(case, lines, meta=None):
         return tags
     tags = []
     cache = {}
-    for kind, initial, num, den, cap, rf, a, v in _probes(case, lines):
+    hkv = kvs(case["header"])
+    if hkv.get("clone", "0") != "0":
+        tags.append("clone")
+    ops = [op for op in case["ops"] if op.split()[:2] == ["probe", "backoff"]]
+    for op, (kind, initial, num, den, cap, rf, a, v) in zip(ops, _probes(case, lines)):
         tags.append("kind-" + kind)
         if kind in ("policy_none", "fixed", "policy_fixed"):
             continue
@@ -291,9 +432,63 @@ def transitions(case, lines, meta=None):
             tags.append("attempt>i32max")
         if a == USIZE_MAX:
             tags.append("attempt=usize-max")
+        if c >= DUR_MAX - 999999999 and idl.cross and idl.rawcross == 2 ** 64 * SEC and min(a, I32_MAX) == idl.cross:
+            tags.append("product-exactly-2^64s")
         if num == den:
             tags.append("multiplier-one")
+        elif num < 2 * den:
+            tags.append("multiplier-below-2")
+        if cap is not None and idl.cross and (idl.rawcross - cap <= 1 or cap - idl.table[idl.cross - 1] <= 1):
+            tags.append("cap-within-1ns-of-uncapped-value")
+        kv = dict(hkv)
+        kv.update(kvs(op))
+        if "chain" not in kv or kind in POLICY2:
+            continue
+        ck = ("chain", kv["chain"], initial)
+        if ck not in cache:
+            cache[ck] = _chain_tags(parse_chain(kv["chain"]), initial)
+        ctags, stale = cache[ck]
+        tags += ctags
+        if initial and idl.at(a) < c and any(st.at(a) >= st.cap for st in stale):
+            tags.append("below-cap-where-a-stale-setting-is-saturated")
+        if initial and idl.at(a) >= c and any(st.at(a) < st.cap for st in stale):
+            tags.append("at-cap-where-a-stale-setting-is-not")
     return tags
+
+
+def _chain_tags(items, initial):
+    """tags describing the shape of a chain + the exact oracles of the stale combinations (a setting that was in force
+    when another setter ran, but is not the final one)"""
+    tags = ["chain"]
+    num, den, cap = last_wins(items)
+    ms = [i for i, it in enumerate(items) if it[0] == "m"]
+    cs = [i for i, it in enumerate(items) if it[0] == "c"]
+    if not items:
+        tags.append("chain-empty")
+    if not ms:
+        tags.append("chain-default-multiplier")
+    if not cs:
+        tags.append("chain-no-max_interval")
+    if len(ms) > 1:
+        tags.append("chain-overridden-multiplier")
+    if len(cs) > 1:
+        tags.append("chain-overridden-max_interval")
+    if ms and cs:
+        tags.append("chain-multiplier-before-max_interval" if ms[-1] < cs[-1] else "chain-max_interval-before-multiplier")
+        if ms[-1] > cs[-1]:
+            before = [items[i][1] for i in ms if i < cs[-1]]
+            p, q = before[-1] if before else (2, 1)           # the multiplier in force when the last maximum was set
+            if num * q < p * den:
+                tags.append("chain-max_interval-before-smaller-multiplier")
+            elif num * q > p * den:
+                tags.append("chain-max_interval-before-larger-multiplier")
+    mults, caps = _settings(items)
+    stale = []
+    for mm in dict.fromkeys(mults[-3:]):
+        for cc in dict.fromkeys(caps[-3:]):
+            if (mm[0] * den, cc) != (num * mm[1], cap):
+                stale.append(Ideal(initial, mm[0], mm[1], cc))
+    return tags, stale
 
 
 def nontrivial(case, lines, tags):
@@ -322,14 +517,24 @@ SPECS = {
         "transitions": transitions,
         "nontrivial": nontrivial,
         "all_transitions": ["kind-exp", "kind-rand", "kind-retry_policy", "kind-policy_exp", "kind-policy_rand", "kind-policy_fixed",
-                            "kind-fixed", "kind-policy_none", "below-cap", "at-cap", "first-capped-attempt", "saturated-duration-max",
+                            "kind-fixed", "kind-policy_none", "kind-retry_policy_rand", "kind-policy_exp_of", "kind-policy_rand_of",
+                            "kind-policy_custom", "clone", "chain", "chain-empty", "chain-default-multiplier", "chain-no-max_interval",
+                            "chain-overridden-multiplier", "chain-overridden-max_interval", "chain-multiplier-before-max_interval",
+                            "chain-max_interval-before-multiplier", "chain-max_interval-before-smaller-multiplier",
+                            "chain-max_interval-before-larger-multiplier", "below-cap-where-a-stale-setting-is-saturated",
+                            "at-cap-where-a-stale-setting-is-not", "multiplier-below-2", "cap-within-1ns-of-uncapped-value", "product-exactly-2^64s", "below-cap", "at-cap", "first-capped-attempt", "saturated-duration-max",
                             "zero-initial", "cap-at-or-below-initial", "attempt>i32max", "attempt=usize-max", "multiplier-one",
                             "e2e-outage", "e2e-outage>=1h"],
         "model_modules": ["TR.Model.Backoff", "TR.Lemmas.Backoff", "TR.Mutants.BackoffCapAfter"],
         "lean_files": ["TR.Model.Backoff", "TR.Lemmas.Backoff", "TR.Mutants.BackoffCapAfter"],
         "sizes": (400, 6000),
-        "rule": "seeded cases, each one configuration (kind exp/rand/retry_policy/policy_exp/policy_rand/fixed/policy_fixed/policy_none; initial 0, "
-                "1 ns .. 7 days, log-uniform; multiplier on the grid {1,1.1,1.25,1.5,2,2.5,3,3.5,5,7.5,10}; cap absent / below / equal / above the "
+        "rule": "seeded cases, each one configuration (kind exp/rand/retry_policy/retry_policy_rand/policy_exp/policy_rand/policy_exp_of/policy_rand_of/"
+                "policy_custom/fixed/policy_fixed/policy_none; 60 % of the builder-made ones given by their setter chain `chain=` — both orders of "
+                "multiplier / max_interval, default multiplier left out, 1..3 overridden or repeated setters anywhere — with multipliers below 2 "
+                "favoured, caps within 1 ns of an uncapped value, and attempts around the first capped attempt of the intended and of every stale "
+                "combination of settings seen along the chain; 10 % asked through a clone; initial 0, "
+                "1 ns .. 7 days, log-uniform; multiplier on the grid {1,1.1,1.25,1.5,2,2.5,3,3.5,5,7.5,10}; 5 % power-of-two seconds x 2/4/8 without a maximum, so that the product "
+                "hits 2^64 s exactly; cap absent / below / equal / above the "
                 "initial interval / years / Duration::MAX; factor 0..100 %) probed at dense windows of consecutive attempts inside 0..10^4 (around 0, "
                 "around the first capped attempt, random; about 2 % of the cases sweep all of 0..10^4) and at sparse attempts 2^k±1 up to usize::MAX, "
                 "i32::MAX±1, u32::MAX±1; plus end-to-end outage cases (default ReconnectLayer, always-failing service, 1..3 h of virtual time; "
